@@ -83,3 +83,21 @@ Example C13_lookup_examples :
   /\ forallb (FindAstProofs.inert [s2l "C"; s2l "a"] [] (s2l "C") [s2l "a"]) (firstn 2 m) = true
   /\ forallb (FindAstProofs.inert [s2l "f"; s2l "p"] [] (s2l "f") [s2l "p"]) (firstn 3 m) = true.
 Proof. vm_compute. repeat split; reflexivity. Qed.
+
+(* ---- the members of the Literal written by --input-eval go through ast_utils.set_value (Model/SetValue.v, compared with the code
+   each run): for EVERY text of at most two characters, and every text that does not wear a matching pair of quotes, the member
+   written is the member evaluated; the function differs from pure_utils.unquote exactly on '' and "" (which it keeps).  A member
+   that is itself written in quotes loses them (C13_eval_member_refuted). *)
+From CDD Require Quote SetValue SetValueProofs.
+Theorem C13_eval_member_kept : forall s, (length s <= 2)%nat \/ SetValue.wears_quotes s = false -> SetValue.set_value_text s = s.
+Proof. exact SetValueProofs.set_value_keeps. Qed.
+Print Assumptions C13_eval_member_kept.
+Theorem C13_eval_member_vs_unquote : forall s, length s <> 2%nat -> SetValue.set_value_text s = Quote.unquote s.
+Proof. exact SetValueProofs.set_value_vs_unquote. Qed.
+Print Assumptions C13_eval_member_vs_unquote.
+Example C13_eval_member_examples :
+  SetValue.set_value_text (s2l "''") = s2l "''" /\ SetValue.set_value_text [DefaultDoc.DQ; DefaultDoc.DQ] = [DefaultDoc.DQ; DefaultDoc.DQ]
+  /\ SetValue.set_value_text (s2l "'") = s2l "'" /\ SetValue.set_value_text (s2l "NULL") = s2l "NULL" /\ Quote.unquote (s2l "''") = [].
+Proof. exact SetValueProofs.set_value_examples. Qed.
+Example C13_eval_member_refuted : SetValue.set_value_text (s2l "'ab'") = s2l "ab" /\ SetValue.wears_quotes (s2l "'ab'") = true.
+Proof. exact SetValueProofs.set_value_refuted. Qed.
